@@ -83,10 +83,15 @@ pub const ALL: &[&str] = &[
 ];
 
 pub fn replay_fun(property: &str, scenario: &str, input: &serde_json::Value) -> Vec<crate::check::Finding> {
+    if scenario.starts_with("int:") {
+        // E-INT bursts are defined in c18.rs whichever property's plan runs them
+        return c18::replay_fun(input);
+    }
     match property {
         "C14" => c14::replay_fun(scenario, input),
         "C13" => c13::replay_fun(scenario, input),
         "C18" => c18::replay_fun(input),
+        "C20" if scenario == "fun:c16-lattice" => chat::replay_fun("C16", scenario, input),
         "C20" => c20::replay_fun(scenario, input),
         "C07" | "C08" | "C09" | "C16" => chat::replay_fun(property, scenario, input),
         _ => vec![],
